@@ -461,6 +461,5 @@ def run(report, index, tier):
     report.extra['exhaustive'] = True
     report.not_decided.append('multi-line tokens (exempt in the statement)')
     report.trusted_base += [
-        'transcription of walker.process_layouts (digest-guarded)',
-        'transcribed semantics of the ruletypes token classes '
-        '(digest-guarded)', 'abstract evaluator']
+        'abstract evaluator (walker.walk / process_layouts / the Token '
+        'classes are evaluated from their source, not transcribed)']
